@@ -20,6 +20,8 @@ class C18(framework.PropertyCheck):
             c = {'cf': gen_trace.gen_csv(rng), 'nl': rng.random() < 0.5}
             if k % 5 == 4:
                 c['history'] = True      # another capture has been loaded before and unloaded again
+            if k % 5 == 2:
+                c['failed_first'] = ['missing', 'ext'][k % 2]     # an attempt to load a file that does not exist / is of no known kind came first
             yield c
         if tier == 'thorough':
             import itertools
@@ -46,6 +48,8 @@ class C18(framework.PropertyCheck):
         steps = [('loadcsv', 't0', text), ('eval', 'eorg', '(list SIGNALS MAX-INDEX INDEX)')]
         if case.get('history'):
             steps = [('loadcsv', 'zz', 'Time [s],other\n0.5,1\n0.75,0\n1.5,1\n'), steps[0], ('unload', 'zz'), steps[1]]
+        if case.get('failed_first'):
+            steps = [('loadfail', 'q9', case['failed_first'])] + steps
         q = '(list INDEX TS ' + ' '.join(f'(get {qs(n)})' for n in den['signals']) + ')'
         for _ in den['timestamps']:
             steps.append(('eval', 'eorg', q))
@@ -56,6 +60,8 @@ class C18(framework.PropertyCheck):
         den = gen_trace.denote_csv(case['cf'])
         names = den['signals']
         n = len(den['timestamps'])
+        if case.get('failed_first'):
+            iobs = iobs[1:]
         if case.get('history'):
             if len(iobs) < 3 or iobs[0] != ('ok',) or iobs[2] != ('ok',):
                 return {'what': 'loading / unloading the other capture failed', 'obs': iobs[:3]}
